@@ -27,7 +27,7 @@ STUBS = ["np proxy", "SymArray", "np.linalg.norm model", "generator stub (draw c
 
 def bounds_text(tier):
     if tier == "quick":
-        return "n=3: all 8 knowledge sets x every valid action x 3 computers x 4 gaps (budget None / symbolic); n=4: 48 seeded states"
+        return "n=3: all 8 knowledge sets x every valid action x 3 computers x 4 gaps (budget None / symbolic), plus every out-of-order unstep history step(x),step(a),unstep(x), plus a second episode on the same env; n=4: 48 seeded states + 16 unstep histories"
     return "n=3 complete; n=4: all 1024 knowledge sets x one seeded action x seeded computer/gap"
 
 
